@@ -447,4 +447,135 @@ func checkC11(c *Ctx, r *Report) {
 			r.viol("C11.T5", "EncodeResponse header shape from IsFlexible() except key 18", m.Pos(er.Pos()), fmt.Sprintf("IsFlexible used=%v Key used=%v compared with 18=%v", okFlex, okKey, k18))
 		}
 	}
+	// ---- T6: the response header writer
+	r.rule("C11.T6", "encodeResponseHeader writes the correlation id big-endian at bytes 0..3 (byte k = id >> 8*(3-k)) of every buffer it returns, followed for flexible headers by one zero byte; EncodeResponse passes its correlationID parameter through", 2)
+	if eh := needFn(m, r, "C11.T6", pkgProtocol, "encodeResponseHeader"); eh != nil {
+		corr := eh.Params[0]
+		type bufInfo struct {
+			pos    token.Pos
+			shifts map[int64]int64 // byte index → shift amount of the correlation id
+			other  map[int64]string
+			size   int64
+		}
+		bufs := map[ssa.Value]*bufInfo{}
+		rootOf := func(v ssa.Value) ssa.Value {
+			v = strip(v)
+			if sl, ok := v.(*ssa.Slice); ok && sl.Low == nil && sl.High == nil {
+				return sl.X
+			}
+			return v
+		}
+		for _, b := range eh.Blocks {
+			for _, in := range b.Instrs {
+				st, ok := in.(*ssa.Store)
+				if !ok {
+					continue
+				}
+				ia, ok := st.Addr.(*ssa.IndexAddr)
+				if !ok {
+					continue
+				}
+				k, ok := constInt(ia.Index)
+				if !ok {
+					r.undecided("C11.T6", "encodeResponseHeader byte stores have constant indexes", m.Pos(st.Pos()), "index "+describe(ia.Index))
+					continue
+				}
+				root := rootOf(ia.X)
+				if a, ok := root.(*ssa.Alloc); ok && a.Comment == "varargs" {
+					continue // the temporary array of append(buf, 0): the appended tagged-field byte
+				}
+				bi := bufs[root]
+				if bi == nil {
+					bi = &bufInfo{pos: st.Pos(), shifts: map[int64]int64{}, other: map[int64]string{}, size: constLenOf(ia.X)}
+					bufs[root] = bi
+				}
+				val := st.Val
+				if cv, ok := val.(*ssa.Convert); ok {
+					val = cv.X
+				}
+				switch x := val.(type) {
+				case *ssa.BinOp:
+					if sh, ok := constInt(x.Y); ok && x.Op == token.SHR && strip(x.X) == ssa.Value(corr) {
+						bi.shifts[k] = sh
+						continue
+					}
+				case *ssa.Parameter:
+					if x == corr {
+						bi.shifts[k] = 0
+						continue
+					}
+				}
+				if c0, ok := constInt(st.Val); ok {
+					bi.other[k] = fmt.Sprintf("%d", c0)
+				} else {
+					bi.other[k] = describe(st.Val)
+				}
+			}
+		}
+		if len(bufs) == 0 {
+			// binary.BigEndian.PutUint32 form
+			puts := findCalls(eh, "(encoding/binary.bigEndian).PutUint32")
+			okPut := false
+			for _, p := range puts {
+				if dependsOnParam(p.Common().Args[2], corr) {
+					okPut = true
+				}
+			}
+			if okPut {
+				r.ok("C11.T6", "correlation id is written big-endian", m.Pos(eh.Pos()), "binary.BigEndian.PutUint32")
+			} else {
+				r.unresolved("C11.T6", "correlation id byte stores", "neither byte stores nor PutUint32 found")
+			}
+		}
+		for _, bi := range bufs {
+			want := map[int64]int64{0: 24, 1: 16, 2: 8, 3: 0}
+			bad := ""
+			for k, sh := range want {
+				if got, ok := bi.shifts[k]; !ok {
+					bad = fmt.Sprintf("byte %d does not receive the correlation id", k)
+				} else if got != sh {
+					bad = fmt.Sprintf("byte %d receives id >> %d, big-endian needs id >> %d: ids above 65535 are echoed with swapped bytes", k, got, sh)
+				}
+			}
+			for k := range bi.shifts {
+				if k > 3 {
+					bad = fmt.Sprintf("byte %d also receives correlation id bits", k)
+				}
+			}
+			for k, v := range bi.other {
+				if k != 4 || v != "0" {
+					bad = fmt.Sprintf("byte %d is set to %s", k, v)
+				}
+			}
+			key := fmt.Sprintf("%d-byte response header carries the correlation id big-endian", bi.size)
+			if bad == "" {
+				r.ok("C11.T6", key, m.Pos(bi.pos), "")
+			} else {
+				r.viol("C11.T6", key, m.Pos(bi.pos), bad)
+			}
+		}
+		if er := m.Func(pkgProtocol, "EncodeResponse"); er != nil {
+			okPass := false
+			for _, call := range findCalls(er, pkgProtocol+".encodeResponseHeader") {
+				if strip(call.Common().Args[0]) == ssa.Value(er.Params[0]) {
+					okPass = true
+				}
+			}
+			if okPass {
+				r.ok("C11.T6", "EncodeResponse hands its correlationID to the header writer", m.Pos(er.Pos()), "")
+			} else {
+				r.viol("C11.T6", "EncodeResponse hands its correlationID to the header writer", m.Pos(er.Pos()), "the header is built from another value")
+			}
+		}
+	}
+}
+
+func dependsOnParam(v ssa.Value, p *ssa.Parameter) bool {
+	hit := false
+	backSlice(v, true, func(x ssa.Value) {
+		if x == ssa.Value(p) {
+			hit = true
+		}
+	})
+	return hit
 }
